@@ -506,7 +506,7 @@ func runC15(cs *Case, out func(string)) {
 		switch probe {
 		case "stall-reader", "stall-idle":
 			expectEvict = true // never reads
-		case "no-ack":
+		case "no-ack", "lag-tx-tail":
 			go func() {
 				for {
 					if _, err := st.Recv(); err != nil {
@@ -577,6 +577,23 @@ func runC15(cs *Case, out func(string)) {
 		if (probe == "writer-vs-poll" || probe == "ack-retention") && (time.Since(t0) > 4*time.Second || i >= 4000) {
 			break
 		}
+	}
+	if probe == "lag-tx-tail" && !blocked {
+		// the peer never acknowledges, so every catch-up fetch starts at its start sequence: the log
+		// now ENDS with a transaction that straddles the 100th entry of such a fetch; the primary
+		// stays idle for a while (several fetches run), then the next write must still be served
+		op("commit", func() error {
+			t, err := pe.BeginTransaction(false)
+			if err != nil {
+				return err
+			}
+			for j := 0; j < 3+puts%5; j++ {
+				t.Put([]byte(fmt.Sprintf("tail-%d", j)), []byte("t"))
+			}
+			return t.Commit()
+		})
+		time.Sleep(1500 * time.Millisecond)
+		put(puts)
 	}
 	fails := []string{}
 	kfs := map[string]bool{}
@@ -715,7 +732,7 @@ func runC15(cs *Case, out func(string)) {
 
 func genC15(w *bufio.Writer, seed int64, n int, tier string) {
 	r := rand.New(rand.NewSource(seed*104729 + 15))
-	kinds := []string{"ack-retention", "stall-idle", "abrupt-close", "tcp-stall", "no-ack", "slow-apply", "stall-reader", "writer-vs-poll", "session-churn"}
+	kinds := []string{"ack-retention", "stall-idle", "abrupt-close", "tcp-stall", "no-ack", "slow-apply", "stall-reader", "writer-vs-poll", "session-churn", "lag-tx-tail"}
 	for i := 0; i < n; i++ {
 		k := kinds[i%len(kinds)]
 		if k == "session-churn" {
@@ -729,6 +746,11 @@ func genC15(w *bufio.Writer, seed int64, n int, tier string) {
 			healthy = r.Intn(3)
 			puts = 200 + r.Intn(400)
 			vsize = []int{4096, 16384, 30000}[r.Intn(3)]
+		}
+		if k == "lag-tx-tail" {
+			// 89 puts + the workload's 5 two-key transactions = 99 entries, then the tail transaction
+			fmt.Fprintf(w, "case g%d-%d probe=lag-tx-tail healthy=%d puts=89 vsize=64 bound=5 hbint=500 hbto=2000\nend\n", seed, i, r.Intn(2))
+			continue
 		}
 		if k == "writer-vs-poll" && healthy == 0 {
 			healthy = 1
